@@ -188,6 +188,21 @@ let () =
                | None -> print_endline "undecodable"))
          | _ -> print_endline "noroots");
         flush stdout
+      | ["faultreads"; cmpid; name; key; k; hexfile] ->
+        (* GetItem(key, false) on a freshly opened store whose k-th ReadAt (from 0) fails, then the retried call *)
+        let f = bytes_of_hex hexfile in
+        let name = bytes_of_hex name in
+        let show rs = String.concat " " ("r" :: List.map (fun (Rd (o, n)) -> Printf.sprintf "%d:%d" (int_of_z o) (int_of_z n)) rs) in
+        (match scan f (blen f) with
+         | ScanFound (e, m) ->
+           (match List.assoc_opt name m with
+            | None -> print_endline "nocoll"
+            | Some root ->
+              (match get_fault_file (cmp_of (nat_of_int (int_of_string cmpid))) f root e (bytes_of_hex key) (nat_of_int (int_of_string k)) with
+               | Some ((a, r), failed) -> print_endline ((if failed then "failed " else "ok ") ^ show a ^ " | " ^ show r)
+               | None -> print_endline "undecodable"))
+         | _ -> print_endline "noroots");
+        flush stdout
       | ["openreads"; hexfile] ->
         let rs = open_reads (bytes_of_hex hexfile) in
         print_endline (String.concat " " ("r" :: List.map (fun (Rd (o, n)) -> Printf.sprintf "%d:%d" (int_of_z o) (int_of_z n)) rs));
